@@ -112,6 +112,10 @@ def materialise(layout):
             continue
     with open(os.path.join(outer, sitename, "__init__.py"), "w") as fh:
         fh.write("")
+    # the surrounding directory is importable as well, so that the site is also reachable as the
+    # sub-package "<outer>.<site>" (mode "dotted-package")
+    with open(os.path.join(outer, "__init__.py"), "w") as fh:
+        fh.write("")
     info = {"outer": outer, "site": os.path.join(outer, sitename), "static": os.path.join(outer, sitename, "static"), "sitename": sitename, "files": files}
     _ROOTS[key] = info
     return info
@@ -165,6 +169,11 @@ def build_app(info, kind, side, mode, mounted):
             if info["outer"] not in sys.path:
                 sys.path.insert(0, info["outer"])
             app = cls("static", package=info["sitename"])
+        elif mode == "dotted-package":
+            parent = os.path.dirname(info["outer"])
+            if parent not in sys.path:
+                sys.path.insert(0, parent)
+            app = cls("static", package=os.path.basename(info["outer"]) + "." + info["sitename"])
         else:
             raise core.HarnessError(mode)
     finally:
@@ -325,7 +334,7 @@ SUBS = {"grid": oracle, "layouts": oracle}
 
 SEGMENTS = ["", ".", "..", "file.txt", "dir", "..name", ".hidden", "%2e%2e", "index.html", "x", "x.html", "y", "d2", "missing", "é.txt",
             "secret.txt", "static", "static2", "static.html", "staticfile", "SITE", "sub", "...", "100%", "a?b#c.txt", "other", "otherdir"]
-MODES = ["absolute", "relative", "package", "absolute", "relative-dot"]
+MODES = ["absolute", "relative", "package", "absolute", "relative-dot", "dotted-package"]
 
 
 def grid_paths(depth):
